@@ -271,6 +271,11 @@ theorem gen_sites_safe : ∀ s ∈ sites, SiteSafe s := by
   intro s hs
   exact siteOk_sound s (List.all_eq_true.mp gen_sites_ok s hs)
 
+/-- no writer other than `write_float` (whose early returns are the narrowing, modelled by `narrow`) can
+leave before its reserve + encode, and none hides them behind a branch: every call writes its item -/
+theorem gen_writers_unconditional :
+    writersWithReturn = ["aws_cbor_encoder_write_float"] ∧ writersWithBranch = [] := by decide
+
 /-- the model's `reserveLen` is the reservation of the corresponding site -/
 def modelReserve (encoder : String) : Option (Nat × Bool) :=
   if encoder = "cbor_encode_uint" then some (reserveLen (.uint 0), false)
